@@ -222,9 +222,11 @@ class Exec:
             for s in CACHED_SRCS:
                 if reads[s] and s not in self.block and s in srcs:
                     self.block[s] = self.v[s]
-        if self.block_reads is not None and not (self.p.zombie or self.gone):
-            # (error paths probe /proc/<pid>/stat directly to tell zombie from gone: not counted)
+        if self.block_reads is not None and not self.gone:
+            # (error paths probe /proc/<pid>/stat directly to tell zombie from gone: stat reads of a zombie are not counted)
             for s in SRCS:
+                if s == "stat" and self.p.zombie:
+                    continue
                 n = reads[s]
                 if m == "ppid" and s == "stat":
                     n = max(0, n - 1)        # identity re-check by a temporary Process (DESIGN: not counted)
